@@ -44,6 +44,7 @@ type Solver struct {
 	mu    sync.Mutex
 	Kind  string // z3, z3-new, cvc5
 	alive bool
+	needPop bool
 	Local SolverStats
 }
 
@@ -77,6 +78,10 @@ func (s *Solver) start() {
 	s.in = in
 	s.out = bufio.NewReaderSize(out, 1<<20)
 	s.alive = true
+	s.needPop = false
+	if s.Kind == "z3" || s.Kind == "z3-new" {
+		io.WriteString(s.in, "(set-option :produce-models true)\n")
+	}
 }
 
 func (s *Solver) Close() {
@@ -147,6 +152,20 @@ func (s *Solver) readSexp(deadline time.Time) (string, error) {
 // If wantVals is non-empty and the result is sat, the values of those SMT expressions
 // (given as strings) are returned in order.
 func (s *Solver) Check(script string, timeoutMs int, wantVals []string) (SatResult, []uint64, string) {
+	// easy queries are much cheaper in z3's incremental mode (push/pop); hard ones in the tactic mode after (reset)
+	if s.Kind == "z3" && timeoutMs > 400 {
+		r, v, m := s.check(script, 250, wantVals, true)
+		if r != Unknown {
+			return r, v, m
+		}
+		s.Local.Unknown--
+		atomic.AddInt64(&globalStats.Unknown, -1)
+		atomic.AddInt64(&globalStats.Queries, -1)
+	}
+	return s.check(script, timeoutMs, wantVals, false)
+}
+
+func (s *Solver) check(script string, timeoutMs int, wantVals []string, incremental bool) (SatResult, []uint64, string) {
 	s.mu.Lock()
 	defer s.mu.Unlock()
 	t0 := time.Now()
@@ -163,7 +182,16 @@ func (s *Solver) Check(script string, timeoutMs int, wantVals []string) (SatResu
 	var pre string
 	switch s.Kind {
 	case "z3", "z3-new":
-		pre = fmt.Sprintf("(reset)\n(set-option :timeout %d)\n(set-option :produce-models true)\n", timeoutMs)
+		if incremental {
+			if s.needPop {
+				pre = "(pop 1)\n"
+			}
+			pre += fmt.Sprintf("(set-option :timeout %d)\n(push 1)\n", timeoutMs)
+			s.needPop = true
+		} else {
+			pre = fmt.Sprintf("(reset)\n(set-option :timeout %d)\n(set-option :produce-models true)\n", timeoutMs)
+			s.needPop = false
+		}
 	case "cvc5":
 		pre = fmt.Sprintf("(reset)\n(set-option :tlimit-per %d)\n(set-option :produce-models true)\n(set-logic ALL)\n", timeoutMs)
 	}
